@@ -116,7 +116,7 @@ theorem itemrefs_good {w : Ctx → Node → St → St} {doc : Node} {f : Nat} (i
       · exact hs
       · split
         · exact hs
-        · apply ih _ target s U (findId_mem ht) hs
+        · apply ih _ target { s with copies := s.copies + ctx.recursed.length } U (findId_mem ht) ⟨hs.1, hs.2⟩
           have := height_sub doc target (findId_mem ht)
           omega
 
